@@ -105,6 +105,11 @@ def cases(tier):
         for c1, c2, c3 in itertools.product(('sum', 'product', 'pow'), repeat=3):
             for a, b, c, d in itertools.product(s4, repeat=4):
                 out.append(dict(route='api', d=D(mod(c1, mod(c2, a[1], b[1]), mod(c3, c[1], d[1])))))
+    # multi-range potentials with a non-zero default value (a plateau below the first range: its derivatives are zero)
+    for comb in ('none', 'sum', 'product'):
+        for marker in ('>', '>='):
+            for other in ('morse', 'polynomial', 'py_plain'):
+                out.append(dict(route='mr_default', comb=comb, marker=marker, other=other))
     # multi-range through the API
     for (na, a, _), (nb, b, _2) in itertools.product(sub, sub):
         out.append(dict(route='api', d=D(('>', 0.0, a), ('>=', 1.1, b))))
@@ -263,9 +268,43 @@ def run_leaf(case):
     return dict(outcome='ok:leaf:%s' % name if not viol else 'violation', nontrivial=True, evals=evals, violations=viol, skipped=skipped)
 
 
+def run_mr_default(case):
+    import atsim.potentials as ap
+    from atsim.potentials import create_Multi_Range_Potential_Form, Multi_Range_Defn
+    L = dict((n, it) for n, it, _l in leaves())
+    env = M.env()
+    start, dv = 1.0, 25.0
+    inner = form('buck', 1000.0, 0.3, 32.0)
+    obj = create_Multi_Range_Potential_Form(Multi_Range_Defn(case['marker'], start, R.api_item(inner)), default_value=dv)
+    other = L[case['other']]
+    f = obj if case['comb'] == 'none' else {'sum': ap.plus, 'product': ap.product}[case['comb']](obj, R.api_item(other))
+    viol, evals = [], 0
+    for r in (0.2, 0.7, 0.999, 1.5, 3.0):
+        a = Jet(dv) if r < start else X.ev_item(inner, r, env)
+        b = X.ev_item(other, r, env)
+        ref = a if case['comb'] == 'none' else (a + b if case['comb'] == 'sum' else a * b)
+        sc = abs(ref.v) + abs(ref.d1) + abs(ref.d2) + abs(a.v * b.d1) + abs(a.v * b.d2) + 1.0
+        tol1 = 1e-9 * sc + (1e-6 * sc if case['other'] == 'py_plain' else 0.0)
+        tol2 = 1e-9 * sc + (5e-2 * sc if case['other'] == 'py_plain' else 0.0)
+        for which, want, tol in (('__call__', ref.v, 1e-9 * sc), ('deriv', ref.d1, tol1), ('deriv2', ref.d2, tol2)):
+            if which != '__call__' and not hasattr(f, which):
+                continue
+            evals += 1
+            got = f(r) if which == '__call__' else getattr(f, which)(r)
+            if not abs(got - want) <= tol:
+                viol.append(dict(sig='%s-wrong:default-value-plateau' % which, msg='multi-range potential with default_value=%r (range %s%r), combined by %s with %s: %s(%r) = %r, true value %r'
+                                 % (dv, case['marker'], start, case['comb'], case['other'], which, r, got, want), detail={}))
+                break
+        if viol:
+            break
+    return dict(outcome='ok:mr_default' if not viol else 'violation', nontrivial=True, evals=evals, violations=viol)
+
+
 def run_case(case):
     if case['route'] == 'leaf':
         return run_leaf(case)
+    if case['route'] == 'mr_default':
+        return run_mr_default(case)
     env = M.env()
     try:
         f, dref = build(case)
